@@ -47,6 +47,9 @@ func (c *Chain) mintAbs(lastHeight int64) mintState {
 	return st
 }
 
+// the denomination this history mints (a governance parameter; the emission records carry a denom of their own)
+var mintDenom = "ujkl"
+
 func randMintParams(r *rand.Rand, stipend string) minttypes.Params {
 	tpb := []int64{0, 1, 2, 3, 7, 100, 4_200_000, 10_000_000_000, 1_000_000_000_000_000_000, 2_000_000_000_000_000_000, 92_233_720_368_547_759, 9_223_372_036_854_775_807}[r.Intn(12)]
 	dec := []int64{0, 6, 5_255_999, 5_256_000, 5_256_001, 52_560_000, 3_000_000, 1_000_000_000}[r.Intn(8)]
@@ -60,7 +63,7 @@ func randMintParams(r *rand.Rand, stipend string) minttypes.Params {
 	if r.Intn(4) == 0 {
 		a, b, cc = 80, 8, 12
 	}
-	return minttypes.NewParams("ujkl", b, tpb, a, dec, stipend, cc)
+	return minttypes.NewParams(mintDenom, b, tpb, a, dec, stipend, cc)
 }
 
 func paramsJ(p minttypes.Params) map[string]interface{} {
@@ -81,6 +84,7 @@ func runMint(seed int64, histories, steps int, out *Emitter) {
 		// users hold a second denomination only, so that user 3 (the stipend account) starts at 0 ujkl
 		// (a chain restarted from an exported genesis starts at the height it was exported at: heights
 		// around a change in the number of decimal digits, and past a day's worth of blocks)
+		mintDenom = []string{"ujkl", "ujkl", "ujwl", "umint"}[rand.New(rand.NewSource(seed*7919+int64(hi)+47)).Intn(4)]
 		genesisInitialHeight = []int64{1, 1, 1, 9_980, 99_900, 14_300, 999_950, 28_700}[rand.New(rand.NewSource(seed*7919+int64(hi)+43)).Intn(8)]
 		c := NewChain(4, []string{"utest"}, mut)
 		// the parameters as governance set them (by key) — what the blocks are judged against, whatever
